@@ -528,8 +528,18 @@ func genC14(o genOpts) error {
 				ws.SignatureCode() != k.signer.SignatureCode() ||
 				!bytes.Equal(ws.Sign(m).Bytes(), k.signer.Sign(m).Bytes()) ||
 				!ws.Verifier().Verify(m, k.signer.Sign(m)) || !v.Verify(m, ws.Sign(m)) ||
-				!bytes.Equal(ws.Unwrap().Encode(), k.sb) || ws.Unwrap().DID() != k.signer.DID() {
+				!bytes.Equal(ws.Unwrap().Encode(), k.sb) || ws.Unwrap().DID() != k.signer.DID() ||
+				!bytes.Equal(ws.Raw(), k.signer.Raw()) || !bytes.Equal(ws.Verifier().Raw(), k.signer.Verifier().Raw()) ||
+				ws.Verifier().Code() != k.signer.Verifier().Code() || ws.SignatureAlgorithm() != k.signer.SignatureAlgorithm() {
 				fail("signer.Wrap under " + ids + " changed more than the DID")
+			}
+			// the same for a verifier wrapped on its own: every accessor but DID() is the key's
+			if wv, err := pverifier.Wrap(k.signer.Verifier(), id); err == nil {
+				kv := k.signer.Verifier()
+				if wv.DID() != id || !bytes.Equal(wv.Raw(), kv.Raw()) || !bytes.Equal(wv.Encode(), kv.Encode()) || wv.Code() != kv.Code() ||
+					!wv.Verify(m, k.signer.Sign(m)) || wv.Verify(msgs[1], k.signer.Sign(m)) {
+					fail("verifier.Wrap under " + ids + " changed more than the DID")
+				}
 			}
 		}
 	}
